@@ -32,7 +32,10 @@ def setup(tier):
 
 def cases(tier, seed):
     per = 25 if tier == "quick" else 4000
-    out = [dict(c, kind="asm") for c in _embedded.assembly_cases(seed, per * len(gen.enzyme_names()), features=False, max_chain=4)]
+    # rc_closing=False: a chain whose vector upstream overhang is the reverse complement of an inner junction is assembled by the
+    # library, but its reverse-complemented module set has two reverse-complementary *start* overhangs, for which C03 mandates
+    # DuplicateModules; such chains are ambiguous and outside the well-formed space C12 quantifies over
+    out = [dict(c, kind="asm") for c in _embedded.assembly_cases(seed, per * len(gen.enzyme_names()), features=False, max_chain=4, rc_closing=False)]
     its = regs.items()
     step = 3 if tier == "quick" else 1
     for j in range(0, len(its), 10):
